@@ -56,6 +56,12 @@ M('C03', 'cached-link-hash-wrong-operand', 'mithril-client/src/certificate_clien
   'if certificate.hash != hash {', 'if certificate.hash != certificate.hash.clone() {', ['client:cached-link-hash'], 'the served hash is compared with itself')
 M('C07', 'kes-clamp-past-last-period', COMMON + 'crypto_helper/cardano/kes/verifier_standard.rs',
   'std::cmp::min(63, kes_evolutions.saturating_add(1))', 'std::cmp::min(64, kes_evolutions.saturating_add(1))', ['kes:last-period'], 'F13 reintroduced: evolution 64 aliases the last period')
+M('C01', 'batch-weights-unused', STM + 'signature_scheme/bls_multi_signature/signature.rs',
+  'let (vks, sigs) = (scaled_vks, scaled_sigs);', 'let _ = (scaled_vks, scaled_sigs);', ['batch:weights'], 'F14 reintroduced: the unweighted members are summed')
+M('C01', 'batch-weights-constant', STM + 'signature_scheme/bls_multi_signature/signature.rs',
+  '            let mut hasher = hashed_batch.clone();\n            hasher.update(index.to_be_bytes());', '            let mut hasher = Blake2b::<U16>::new();\n            hasher.update(index.to_be_bytes());', ['batch:weights:transcript'], 'the weights no longer depend on the batch: predictable, offsets can be chosen to cancel')
+M('C01', 'decoded-signature-not-group-checked', STM + 'signature_scheme/bls_multi_signature/signature.rs',
+  'match BlstSig::sig_validate(bytes, true) {', 'match BlstSig::from_bytes(bytes) {', ['subgroup check'], 'on-curve only: sigma + small-order point verifies in the aggregate path with other bytes')
 
 # ---------------------------------------------------------------- C02
 CLERK = STM + 'proof_system/concatenation/clerk.rs'
